@@ -24,6 +24,7 @@ import (
 	"github.com/filecoin-project/go-bitfield"
 	"github.com/filecoin-project/go-f3/certs"
 	"github.com/filecoin-project/go-f3/gpbft"
+	"github.com/filecoin-project/go-f3/pmsg"
 	"github.com/filecoin-project/go-f3/sim/signing"
 )
 
@@ -99,6 +100,7 @@ type scenario struct {
 	MaxSteps  int
 	MaxRound  uint64
 	Crash     map[int]time.Duration // honest id -> time after which it stops (crash-silent), pre-GST only
+	Partial   bool // every message travels as a partial message (announced value key), is partially validated on arrival and completed with its chain (production path of pmsg)
 }
 
 type world struct {
@@ -127,6 +129,7 @@ type world struct {
 	gstRounds map[int]uint64
 	gstPassed bool
 	fatal   string
+	relabelled map[*gpbft.GMessage]bool
 	scripted bool // schedule comes from a TLC-generated script, not from the event queue
 	skipped  int  // script steps whose precondition the real run did not meet
 }
@@ -242,6 +245,8 @@ type qev struct {
 	bad  bool // invalid on purpose
 	badsupp bool // ... by foreign supplemental data (only meaningful for the instance the receiver is running)
 	again bool // second delivery of a message the validator already refused once
+	prime bool // partial mode: the genuine partial message is only partially validated (its chain "has not been discovered yet"), nothing is delivered
+	relabel *gpbft.ECChain // partial mode: an observed message re-announced under the key of another chain and completed with that chain
 }
 type evq []*qev
 
@@ -710,6 +715,9 @@ func (w *world) byzStep() {
 	if len(w.sc.Byz) == 0 || w.postGST() {
 		return
 	}
+	if w.sc.Partial && w.rng.Intn(3) == 0 && w.relabelStep() {
+		return
+	}
 	phases := []gpbft.Phase{gpbft.QUALITY_PHASE, gpbft.CONVERGE_PHASE, gpbft.PREPARE_PHASE, gpbft.COMMIT_PHASE, gpbft.DECIDE_PHASE}
 	ph := phases[w.rng.Intn(len(phases))]
 	var maxR, inst uint64
@@ -769,6 +777,50 @@ func (w *world) byzStep() {
 			heap.Push(&w.q, &qev{at: at, seq: w.seq, dest: id, msg: m, byz: true, bad: bad, badsupp: badsupp})
 		}
 	}
+}
+
+// relabelStep (partial mode): the adversary re-announces a vote it has observed (any sender's, unchanged bytes and signature) under
+// the key of another chain, to one fixed victim, right after the victim has partially validated the genuine partial message whose
+// chain "has not been discovered yet". Only observed signatures are used. A correct validator refuses the re-announced message.
+func (w *world) relabelStep() bool {
+	victim := w.honest[int(w.sc.MaxSteps+len(w.sc.Inputs))%len(w.honest)]
+	h := w.hosts[victim]
+	if h.done || h.crashed {
+		return false
+	}
+	inst := w.parts[victim].Progress().ID
+	var cands []*gpbft.GMessage
+	for k := len(w.votes) - 1; k >= 0 && len(cands) < 12; k-- {
+		m := w.votes[k]
+		if m.Vote.Instance == inst && !m.Vote.Value.IsZero() && (m.Vote.Phase == gpbft.DECIDE_PHASE || m.Vote.Phase == gpbft.COMMIT_PHASE || m.Vote.Phase == gpbft.PREPARE_PHASE) && int(m.Sender) != victim && !w.relabelled[m] {
+			cands = append(cands, m)
+		}
+	}
+	if len(cands) == 0 {
+		return false
+	}
+	m := cands[w.rng.Intn(len(cands))]
+	// the target chain is fixed per run: the victim's own input (or its base if the vote is for that input already)
+	in := h.inputs[inst]
+	if in == nil {
+		return false
+	}
+	y := in
+	if y.Eq(m.Vote.Value) {
+		y = in.BaseChain()
+		if y.Eq(m.Vote.Value) {
+			return false
+		}
+	}
+	if w.relabelled == nil {
+		w.relabelled = map[*gpbft.GMessage]bool{}
+	}
+	w.relabelled[m] = true
+	w.seq++
+	heap.Push(&w.q, &qev{at: w.now.Add(time.Millisecond), seq: w.seq, dest: victim, msg: m, byz: true, bad: true, prime: true})
+	w.seq++
+	heap.Push(&w.q, &qev{at: w.now.Add(time.Millisecond), seq: w.seq, dest: victim, msg: m, byz: true, bad: true, relabel: y})
+	return true
 }
 
 func (w *world) start() {
@@ -870,15 +922,21 @@ func (w *world) step() bool {
 			return true
 		}
 	}
-	vm, err := w.parts[e.dest].ValidateMessage(ctx, e.msg)
+	if e.prime {
+		if pm, perr := stripper.ToPartialGMessage(e.msg); perr == nil {
+			_, _ = w.parts[e.dest].PartiallyValidateMessage(ctx, pm)
+		}
+		return true
+	}
+	vm, delivered, err := w.validateVia(w.parts[e.dest], e.msg, e.relabel)
 	if err != nil {
 		if errors.Is(err, gpbft.ErrValidationNotRelevant) || errors.Is(err, gpbft.ErrValidationTooOld) || errors.Is(err, gpbft.ErrValidationNoCommittee) {
 			return true
 		}
 		// a rejected message: an event of its own (C07: honest output must never be branded invalid)
-		ev := &jEvent{Ev: "Rejected", N: e.dest, M: w.jm(e.msg), Byz: e.byz, Bad: e.bad}
+		ev := &jEvent{Ev: "Rejected", N: e.dest, M: w.jm(delivered), Byz: e.byz, Bad: e.bad}
 		w.after(e.dest, ev, err)
-		if e.bad && !e.again {
+		if e.bad && !e.again && e.relabel == nil {
 			w.seq++
 			heap.Push(&w.q, &qev{at: w.now.Add(time.Millisecond), seq: w.seq, dest: e.dest, msg: e.msg, byz: true, bad: true, again: true})
 		}
@@ -887,13 +945,53 @@ func (w *world) step() bool {
 	if e.byz {
 		w.byzDelivered = true
 	}
-	ev := &jEvent{Ev: "Receive", N: e.dest, M: w.jm(e.msg), Byz: e.byz, Bad: e.bad}
+	ev := &jEvent{Ev: "Receive", N: e.dest, M: w.jm(delivered), Byz: e.byz, Bad: e.bad}
 	if pt, ok := w.parts[e.dest].VerifPhaseTimeout(); ok {
 		ev.To = !w.now.Before(pt)
 	}
 	err = w.parts[e.dest].ReceiveMessage(ctx, vm)
 	w.after(e.dest, ev, err)
 	return true
+}
+
+var stripper = &pmsg.PartialMessageManager{} // ToPartialGMessage uses no field of the manager
+
+// validateVia validates a message the way the scenario prescribes: one-shot (ValidateMessage), or - partial mode - as the production
+// host does: strip to the partial form (announced value key), PartiallyValidateMessage, complete with the chain, FullyValidateMessage.
+// relabel != nil: the partial form announces the key of that other chain and is completed with it. Returns the message as delivered.
+func (w *world) validateVia(p *gpbft.Participant, msg *gpbft.GMessage, relabel *gpbft.ECChain) (gpbft.ValidatedMessage, *gpbft.GMessage, error) {
+	ctx := context.Background()
+	if !w.sc.Partial {
+		vm, err := p.ValidateMessage(ctx, msg)
+		return vm, msg, err
+	}
+	pm, err := stripper.ToPartialGMessage(msg)
+	if err != nil {
+		return nil, msg, err
+	}
+	chain := msg.Vote.Value
+	if relabel != nil && !pm.VoteValueKey.IsZero() {
+		pm.VoteValueKey = relabel.Key()
+		chain = relabel
+	}
+	shown := *pm.GMessage
+	shown.Vote.Value = chain
+	if msg.Justification != nil {
+		shown.Justification = msg.Justification
+	}
+	pv, err := p.PartiallyValidateMessage(ctx, pm)
+	if err != nil {
+		return nil, &shown, err
+	}
+	if !pm.VoteValueKey.IsZero() {
+		pm.Vote.Value = chain
+		pmsg.VerifInferJustificationVoteValue(pm)
+	}
+	vm, err := p.FullyValidateMessage(ctx, pv)
+	if err != nil {
+		return nil, &shown, err
+	}
+	return vm, vm.Message(), nil
 }
 
 func (w *world) checkCrash() {
